@@ -25,6 +25,12 @@ int __exc;
 #define CXX_ASSERT(c, msg) assert((c) && msg)
 #endif
 
+/* a bound of the MODEL (capacity of a container model): exceeding it makes the run undecided, never a violation */
+#define CXX_MODEL_BOUND(c) CXX_ASSERT(c, "MODEL-BOUND: container model capacity exceeded")
+#ifndef CXX_VEC_CAP
+#define CXX_VEC_CAP 160
+#endif
+
 /* library precondition helper: value v must be <= bound (UB in the real library otherwise) */
 static inline uint64_t cxx_precond_le(uint64_t v, uint64_t bound)
 {
@@ -32,7 +38,21 @@ static inline uint64_t cxx_precond_le(uint64_t v, uint64_t bound)
   return v;
 }
 
+/* ghost observation points for the memcpy contract (two arbitrary-but-fixed destination addresses) */
+const uint8_t *__g_mc_q1, *__g_mc_q2;
+#ifndef CXX_NATIVE
+#define CXX_MC_OBS(q) ((__CPROVER_same_object((q), dst) && __CPROVER_POINTER_OFFSET(q) >= __CPROVER_POINTER_OFFSET(dst) && \
+                        __CPROVER_POINTER_OFFSET(q) < __CPROVER_POINTER_OFFSET(dst) + n) ==> \
+                       *(q) == ((const uint8_t *)src)[__CPROVER_POINTER_OFFSET(q) - __CPROVER_POINTER_OFFSET(dst)])
+#endif
 static inline void *cxx_memcpy(void *dst, const void *src, uint64_t n)
+#ifndef CXX_NATIVE
+__CPROVER_requires(n == 0 || (__CPROVER_r_ok(src, n) && __CPROVER_w_ok(dst, n)))
+__CPROVER_assigns(n != 0: __CPROVER_object_upto(dst, n))
+__CPROVER_ensures(CXX_MC_OBS(__g_mc_q1))
+__CPROVER_ensures(CXX_MC_OBS(__g_mc_q2))
+__CPROVER_ensures(__CPROVER_return_value == dst)
+#endif
 {
   uint8_t *d = (uint8_t *)dst;
   const uint8_t *s = (const uint8_t *)src;
@@ -85,6 +105,11 @@ static inline uint16_t cxx_bswap16(uint16_t v) { return (uint16_t)((v >> 8) | (v
 typedef struct cxx_in_addr { uint32_t s_addr; } cxx_in_addr;
 typedef struct cxx_in6_addr { uint8_t s6_addr[16]; } cxx_in6_addr;
 typedef struct cxx_timeval { int64_t tv_sec; int64_t tv_usec; } cxx_timeval;
+typedef struct cxx_random_device { char _; } cxx_random_device;
+#ifndef CXX_NATIVE
+uint32_t nondet_u32(void);
+static inline uint32_t cxx_nondet_u32(void) { return nondet_u32(); }   /* std::random_device: any value */
+#endif
 
 #ifndef CXX_NATIVE
 void *malloc(__CPROVER_size_t);
@@ -104,7 +129,16 @@ int      __g_ntop_calls;
 int      __g_ntop_af;
 uint8_t  __g_ntop_bytes[16];
 #ifndef CXX_NATIVE
+#define NTOP_SRC(i) (((const uint8_t *)src)[i])
 static inline const char *cxx_inet_ntop(int af, const void *src, char *dst, uint32_t size)
+__CPROVER_requires((af == 2 || af == 10) && size >= (af == 2 ? 16u : 46u))
+__CPROVER_requires(__CPROVER_r_ok(src, af == 2 ? 4 : 16) && __CPROVER_w_ok(dst, size))
+__CPROVER_assigns(__g_ntop_calls, __g_ntop_af, __CPROVER_object_whole(__g_ntop_bytes), __CPROVER_object_upto(dst, size))
+__CPROVER_ensures(__g_ntop_calls == __CPROVER_old(__g_ntop_calls) + 1 && __g_ntop_af == af && __CPROVER_return_value == dst)
+__CPROVER_ensures(__g_ntop_bytes[0] == NTOP_SRC(0) && __g_ntop_bytes[1] == NTOP_SRC(1) && __g_ntop_bytes[2] == NTOP_SRC(2) && __g_ntop_bytes[3] == NTOP_SRC(3))
+__CPROVER_ensures(af == 10 ==> (__g_ntop_bytes[4] == NTOP_SRC(4) && __g_ntop_bytes[5] == NTOP_SRC(5) && __g_ntop_bytes[6] == NTOP_SRC(6) && __g_ntop_bytes[7] == NTOP_SRC(7)))
+__CPROVER_ensures(af == 10 ==> (__g_ntop_bytes[8] == NTOP_SRC(8) && __g_ntop_bytes[9] == NTOP_SRC(9) && __g_ntop_bytes[10] == NTOP_SRC(10) && __g_ntop_bytes[11] == NTOP_SRC(11)))
+__CPROVER_ensures(af == 10 ==> (__g_ntop_bytes[12] == NTOP_SRC(12) && __g_ntop_bytes[13] == NTOP_SRC(13) && __g_ntop_bytes[14] == NTOP_SRC(14) && __g_ntop_bytes[15] == NTOP_SRC(15)))
 {
   CXX_ASSERT(af == 2 || af == 10, "inet_ntop: known address family");
   CXX_ASSERT(size >= (af == 2 ? 16u : 46u), "inet_ntop: buffer large enough (no ENOSPC)");
@@ -132,6 +166,8 @@ static inline int cxx_isprint(int c) { return c >= 32 && c < 127; }
 static inline int cxx_tolower(int c) { return (c >= 'A' && c <= 'Z') ? c + 32 : c; }
 static inline int cxx_toupper(int c) { return (c >= 'a' && c <= 'z') ? c - 32 : c; }
 
+uint64_t __g_vec_b;   /* ghost: arbitrary-but-fixed byte index observed by the container-copy contracts */
+
 /* ------------------------------------------------------------------ std::vector<T> value model
    {p,n,cap}: p owns n elements (cap is unobservable and unused).  Copies are deep (vec_S_clone), moves are struct
    copies.  Storage is never freed.  Each function also carries a contract so that unbounded proofs can use
@@ -139,41 +175,60 @@ static inline int cxx_toupper(int c) { return (c >= 'a' && c <= 'z') ? c - 32 : 
 #define CXX_VEC(T, S) \
   static inline void vec_##S##_resize(vec_##S *v, uint64_t n) \
   __CPROVER_requires(__CPROVER_rw_ok(v, sizeof(*v)) && n <= 0x0FFFFFFFFFFFFFFFul / sizeof(T)) \
-  __CPROVER_assigns(v->p, v->n) \
-  __CPROVER_ensures(v->n == n && (n == 0 || __CPROVER_is_fresh(v->p, n * sizeof(T)))) \
+  __CPROVER_assigns(v->p, v->n, v->cap) \
+  __CPROVER_ensures(v->n == n && v->cap == n && (n == 0 || __CPROVER_is_fresh(v->p, n * sizeof(T)))) \
   { T *np = (T *)cxx_alloc(n * sizeof(T)); \
     for (uint64_t __k = 0; __k < n; ++__k) { if (__k < v->n) np[__k] = v->p[__k]; else { T z = {0}; np[__k] = z; } } \
-    v->p = np; v->n = n; } \
+    v->p = np; v->n = n; v->cap = n; } \
   static inline void vec_##S##_resize_fill(vec_##S *v, uint64_t n, T val) \
   { T *np = (T *)cxx_alloc(n * sizeof(T)); \
     for (uint64_t __k = 0; __k < n; ++__k) { if (__k < v->n) np[__k] = v->p[__k]; else np[__k] = val; } \
-    v->p = np; v->n = n; } \
+    v->p = np; v->n = n; v->cap = n; } \
   static inline void vec_##S##_clear(vec_##S *v) { v->n = 0; } \
+  static inline void vec_##S##_grow(vec_##S *v, uint64_t need) \
+  { /* storage grows once to CXX_VEC_CAP elements; growing beyond it is a bound of the MODEL, not of the code */ \
+    if (need > v->cap) { \
+      CXX_MODEL_BOUND(need <= CXX_VEC_CAP); \
+      T *np = (T *)cxx_alloc(CXX_VEC_CAP * sizeof(T)); \
+      for (uint64_t __k = 0; __k < v->n; ++__k) np[__k] = v->p[__k]; \
+      v->p = np; v->cap = CXX_VEC_CAP; } } \
   static inline void vec_##S##_push_back(vec_##S *v, T val) \
-  { T *np = (T *)cxx_alloc((v->n + 1) * sizeof(T)); \
-    for (uint64_t __k = 0; __k < v->n; ++__k) np[__k] = v->p[__k]; \
-    np[v->n] = val; v->p = np; v->n = v->n + 1; } \
+  { vec_##S##_grow(v, v->n + 1); v->p[v->n] = val; v->n = v->n + 1; } \
   static inline void vec_##S##_pop_back(vec_##S *v) { CXX_ASSERT(v->n > 0, "pop_back on empty vector"); v->n--; } \
   static inline void vec_##S##_pop_front(vec_##S *v) { CXX_ASSERT(v->n > 0, "pop_front on empty deque"); v->p++; v->n--; } \
   static inline vec_##S vec_##S##_clone(vec_##S o) \
   { vec_##S r; r.p = (T *)cxx_alloc(o.n * sizeof(T)); r.n = o.n; r.cap = o.n; \
     for (uint64_t __k = 0; __k < o.n; ++__k) r.p[__k] = o.p[__k]; return r; } \
   static inline vec_##S vec_##S##_from_range(const T *first, const T *last) \
+  __CPROVER_requires(__CPROVER_same_object(first, last) && __CPROVER_POINTER_OFFSET(first) <= __CPROVER_POINTER_OFFSET(last)) \
+  __CPROVER_requires(first == last || __CPROVER_r_ok(first, (uint64_t)(last - first) * sizeof(T))) \
+  __CPROVER_assigns() \
+  __CPROVER_ensures(__CPROVER_return_value.n == (uint64_t)(last - first)) \
+  __CPROVER_ensures(__CPROVER_is_fresh(__CPROVER_return_value.p, (uint64_t)(last - first) * sizeof(T) + 1)) \
+  __CPROVER_ensures(__g_vec_b < (uint64_t)(last - first) * sizeof(T) ==> \
+                    ((const uint8_t *)__CPROVER_return_value.p)[__g_vec_b] == ((const uint8_t *)first)[__g_vec_b]) \
   { vec_##S r; uint64_t n = (uint64_t)(last - first); r.p = (T *)cxx_alloc(n * sizeof(T)); r.n = n; r.cap = n; \
     for (uint64_t __k = 0; __k < n; ++__k) r.p[__k] = first[__k]; return r; } \
   static inline vec_##S vec_##S##_filled(uint64_t n, T val) \
   { vec_##S r; r.p = (T *)cxx_alloc(n * sizeof(T)); r.n = n; r.cap = n; \
     for (uint64_t __k = 0; __k < n; ++__k) r.p[__k] = val; return r; } \
-  static inline void vec_##S##_assign_range(vec_##S *v, const T *first, const T *last) { *v = vec_##S##_from_range(first, last); } \
+  static inline void vec_##S##_assign_range(vec_##S *v, const T *first, const T *last) \
+  __CPROVER_requires(__CPROVER_w_ok(v, sizeof(*v))) \
+  __CPROVER_requires(__CPROVER_same_object(first, last) && __CPROVER_POINTER_OFFSET(first) <= __CPROVER_POINTER_OFFSET(last)) \
+  __CPROVER_requires(first == last || __CPROVER_r_ok(first, (uint64_t)(last - first) * sizeof(T))) \
+  __CPROVER_assigns(*v) \
+  __CPROVER_ensures(v->n == (uint64_t)(last - first)) \
+  __CPROVER_ensures(__CPROVER_is_fresh(v->p, (uint64_t)(last - first) * sizeof(T) + 1)) \
+  __CPROVER_ensures(__g_vec_b < (uint64_t)(last - first) * sizeof(T) ==> ((const uint8_t *)v->p)[__g_vec_b] == ((const uint8_t *)first)[__g_vec_b]) \
+  { *v = vec_##S##_from_range(first, last); } \
   static inline void vec_##S##_assign_fill(vec_##S *v, uint64_t n, T val) { *v = vec_##S##_filled(n, val); } \
   static inline T *vec_##S##_insert_range(vec_##S *v, T *pos, const T *first, const T *last) \
   { uint64_t at = (uint64_t)(pos - v->p); uint64_t m = (uint64_t)(last - first); \
     CXX_ASSERT(at <= v->n, "insert position inside vector"); \
-    T *np = (T *)cxx_alloc((v->n + m) * sizeof(T)); \
-    for (uint64_t __k = 0; __k < at; ++__k) np[__k] = v->p[__k]; \
-    for (uint64_t __k = 0; __k < m; ++__k) np[at + __k] = first[__k]; \
-    for (uint64_t __k = at; __k < v->n; ++__k) np[m + __k] = v->p[__k]; \
-    v->p = np; v->n += m; return np + at; } \
+    vec_##S##_grow(v, v->n + m); \
+    for (uint64_t __k = v->n; __k > at; --__k) v->p[__k - 1 + m] = v->p[__k - 1]; \
+    for (uint64_t __k = 0; __k < m; ++__k) v->p[at + __k] = first[__k]; \
+    v->n += m; return v->p + at; } \
   static inline T *vec_##S##_erase_range(vec_##S *v, T *first, T *last) \
   { uint64_t a = (uint64_t)(first - v->p); uint64_t b = (uint64_t)(last - v->p); \
     CXX_ASSERT(a <= b && b <= v->n, "erase range inside vector"); \
@@ -184,13 +239,23 @@ static inline int cxx_toupper(int c) { return (c >= 'a' && c <= 'z') ? c - 32 : 
    p[n] is NOT required to be a NUL: c_str() users must go through str_cstr) */
 #define CXX_STR() \
   static inline str str_from_n(const char *s, uint64_t n) \
+  __CPROVER_requires(n == 0 || __CPROVER_r_ok(s, n)) \
+  __CPROVER_requires(n < 0x00FFFFFFFFFFFFFFul) \
+  __CPROVER_assigns() \
+  __CPROVER_ensures(__CPROVER_return_value.n == n && __CPROVER_is_fresh(__CPROVER_return_value.p, n + 1)) \
+  __CPROVER_ensures(__g_vec_b < n ==> __CPROVER_return_value.p[__g_vec_b] == s[__g_vec_b]) \
   { str r; r.p = (char *)cxx_alloc(n + 1); r.n = n; r.cap = n; \
     for (uint64_t __k = 0; __k < n; ++__k) r.p[__k] = s[__k]; r.p[n] = 0; return r; } \
-  static inline str str_from_cstr(const char *s) { return str_from_n(s, cxx_strlen(s)); } \
+  static inline str str_from_cstr(const char *s) \
+  __CPROVER_requires(__CPROVER_r_ok(s, 1)) \
+  __CPROVER_assigns() \
+  __CPROVER_ensures(__CPROVER_return_value.n < 0x100000000ul && __CPROVER_is_fresh(__CPROVER_return_value.p, __CPROVER_return_value.n + 1)) \
+  { return str_from_n(s, cxx_strlen(s)); } \
   static inline str str_clone(str o) { return str_from_n(o.p, o.n); } \
   static inline str str_filled(uint64_t n, char c) \
   { str r; r.p = (char *)cxx_alloc(n + 1); r.n = n; r.cap = n; for (uint64_t __k = 0; __k < n; ++__k) r.p[__k] = c; r.p[n] = 0; return r; } \
   static inline void str_clear(str *v) { v->n = 0; } \
+  static inline void str_assign_range(str *v, const char *first, const char *last) { *v = str_from_n(first, (uint64_t)(last - first)); } \
   static inline void str_append_n(str *v, const char *s, uint64_t m) \
   { char *np = (char *)cxx_alloc(v->n + m + 1); \
     for (uint64_t __k = 0; __k < v->n; ++__k) np[__k] = v->p[__k]; \
